@@ -16,11 +16,11 @@
        not exist here).  A call uses the object through a reference that exists in a pool; a release takes the reference
        it releases out of the pool; while calls in progress borrow a reference of a level, the owners of that level do not
        release the last reference of that level; a leave consumes an enter that has returned.
-       EXCLUDED although legal in C: using a group UNDER AN OUTSTANDING ENTER ONLY, i.e. after the last external and
-       internal reference are gone (e.g. `dispatch_group_async(g, q, ^{ dispatch_group_async(g, ...); }); dispatch_release(g);`
-       — the inner call is made while only the outer block's enter keeps g alive).  In the model enter / notify /
-       set_context / retain_weak need an external or internal reference to borrow; the enter's own +1 is not accepted as
-       the keeper.  Such clients are outside every theorem below (the differential harness does not exercise them either);
+       A call may also use a group UNDER AN OUTSTANDING ENTER ONLY (an enter that has returned and whose leave has not
+       begun: the group's own +1 taken for it keeps the group alive), after the last external and internal reference
+       are gone — e.g. `dispatch_group_async(g, q, ^{ dispatch_group_async(g, ...); }); dispatch_release(g);`; while
+       calls in progress use the group this way a leave must leave at least one outstanding enter
+       (C17_use_under_enter_nonvacuous shows such a run);
    (2) bounds (Refcnt.contract_r, an explicit hypothesis on every step of a run, restated by C17_contract_is): fewer than
        2^31-2 references of each level and fewer than 2^30-1 outstanding enters; beyond them the model does what C does
        (the counter wraps / the "Too many nested calls" crash is taken);
@@ -41,7 +41,7 @@
    (immortal) objects, _os_object_retain_with_resurrect. *)
 From Coq Require Import ZArith Bool List.
 From Verif Require Import Word Conc Gen_consts Gen_fields Gen_group Gen_refcnt Gen_lanesites Refcnt RefcntSites
-  Refcnt_inv_proofs Refcnt_proofs.
+  Refcnt_inv_proofs Refcnt_step_proofs Refcnt_proofs.
 Import ListNotations.
 Local Open Scope Z_scope.
 
@@ -274,3 +274,33 @@ Example C17_crash_modelled_outside_contract :
   | None => False
   end.
 Proof. vm_compute. repeat split. Qed.
+
+(* the idiom of using a group from inside a group block after the last release: thread 1 sets a context and a
+   finalizer, enters and drops the only external reference (xref = -1, ref = 0: only the outstanding enter keeps the
+   group alive); thread 2 — a block running under that enter — enters again and registers a notification THROUGH THE
+   ENTER (borrow kind 2), then the two leaves are performed by workers; the last one delivers the notification,
+   drops the last internal reference, the group is disposed and finalised once *)
+Definition idiom_calls : list (Z * Z * Z * Z) :=
+  [ (1, OP_SETCTX, 0, 9); (1, OP_SETFIN, 0, 1); (1, OP_ENTER, 0, 0); (1, OP_RELEASE, 0, 0);
+    (2, OP_ENTER, 2, 0); (2, OP_NOTIFY, 2, 0); (2, 0, 0, 0); (3, 0, 0, 0) ].
+Definition idiom_schedule : list (Z * event) := match sched_of init_state idiom_calls with Some tr => tr | None => [] end.
+Definition isnap (s : gst) : list Z :=
+  let r := regs s in [r XREF; r IREF; r XPOOL; r IPOOL; r EPOOL; priv s KBE; r NLEN; r DISP; r NFIN; r FINCTX; r CRASH].
+Example C17_use_under_enter_nonvacuous :
+  (exists s, grunc init_state (firstn 14 idiom_schedule) = Some s /\ reach s /\
+     (* no external, no internal reference; one outstanding enter; a call in progress under it *)
+     isnap s = [-1; 0; 0; 0; 1; 1; 0; 0; 0; 0; 0] /\ pcs s 2 = PEnter BE) /\
+  (exists s, grunc init_state idiom_schedule = Some s /\ reach s /\ isnap s = [-1; -1; 0; 0; 0; 0; 0; 1; 1; 9; 0]).
+Proof.
+  assert (H1 : option_map (fun s => (isnap s, pcs s 2)) (grunc init_state (firstn 14 idiom_schedule)) =
+               Some ([-1; 0; 0; 0; 1; 1; 0; 0; 0; 0; 0], PEnter BE)) by (vm_compute; reflexivity).
+  assert (H2 : option_map isnap (grunc init_state idiom_schedule) = Some [-1; -1; 0; 0; 0; 0; 0; 1; 1; 9; 0]) by (vm_compute; reflexivity).
+  split.
+  - destruct (grunc init_state (firstn 14 idiom_schedule)) as [s|] eqn:E; [|discriminate H1]. exists s.
+    split; [reflexivity|]. split; [eapply grun_reach; [apply reach_init; reflexivity|exact E]|].
+    pose proof (f_equal (fun o => match o with Some x => x | None => ([], PIdle) end) H1) as H5. cbn [option_map] in H5.
+    split; [exact (f_equal fst H5)|exact (f_equal snd H5)].
+  - destruct (grunc init_state idiom_schedule) as [s|] eqn:E; [|discriminate H2]. exists s.
+    split; [reflexivity|]. split; [eapply grun_reach; [apply reach_init; reflexivity|exact E]|].
+    exact (f_equal (fun o => match o with Some l => l | None => [] end) H2).
+Qed.
